@@ -155,4 +155,10 @@ PROPS.update({
     },
 })
 
+# unbounded roll-over law of the 24-bit accumulator (Apalache, inductive invariant)
+_PA_IND = ("phaseacc-ind", "apalache/PhaseAccInd.tla",
+           [["--init=Init", "--inv=IndInv", "--length=0"], ["--init=IndInit", "--inv=IndInv", "--length=1"]], QT)
+PROPS["C02"]["apalache"] = [_PA_IND]
+PROPS["C17"]["apalache"] = [_PA_IND]
+
 HOOK_COMMITS = ["36838b7"]
